@@ -2,6 +2,10 @@
 use crate::runner::PropDef;
 
 pub mod c06;
+pub mod c07;
+pub mod c12;
+pub mod c13;
+pub mod c14;
 
 pub const TRUSTED: &[&str] = &[
     "rustc / std",
@@ -12,7 +16,7 @@ pub const TRUSTED: &[&str] = &[
 ];
 
 pub fn all() -> Vec<PropDef> {
-    vec![c06::def()]
+    vec![c06::def(), c07::def(), c12::def(), c13::def(), c14::def()]
 }
 
 pub fn find(id: &str) -> Option<PropDef> {
